@@ -1,5 +1,6 @@
 import ElvisVerif.Model.TcpSys
 import ElvisVerif.Lemmas.TcbInv
+import ElvisVerif.Lemmas.TcbNoop
 /-!
 # C17 — A TCP endpoint withstands arbitrary segments from its peer address
 
@@ -145,6 +146,58 @@ theorem c17_listen_wf (segment : Segment) (iss : Seq) (mtu : U16) (hm : SPACE_FO
 example : ∃ s, Tcb.open 1 2 1000 1500 = .ok s ∧ Wf s ∧ HeapIdle s :=
   c17_open_wf 1 2 1000 1500 (by decide)
 
+/-! ## unacceptable segments are no-ops
+
+`Unacceptable s seg` (`Lemmas/TcbNoop.lean`) is written from RFC 9293, not from the code: in
+SYN-SENT a segment with neither SYN nor RST; in every other state a segment none of whose
+sequence numbers lies in `[RCV.NXT − 1, RCV.NXT + RCV.WND)`. -/
+
+/-- **An unacceptable segment changes nothing** but the one-shot output queue, to which at most
+    one header (the ACK, or the RST for an unacceptable ACK in SYN-SENT) is appended: connection
+    state, `RCV.NXT`, the buffered and parked data, the send sequence space, the retransmission
+    queue and the timers are exactly what they were — so is everything `receive()` can return. -/
+theorem c17_unacceptable_noop (s : Tcb) (h : Wf s) (hi : HeapIdle s) (seg : Segment)
+    (hp : seg.text.length ≤ MAX_PAYLOAD) (hu : Unacceptable s seg) :
+    ∃ s', s.segmentArrives seg = .ok (s', .Ok) ∧ OnlyOneshot s s' := by
+  unfold Unacceptable at hu
+  split at hu
+  · rename_i hst
+    exact segmentArrives_synsent_noop s seg hst hi hu.1 hu.2
+  · rename_i hst
+    exact segmentArrives_outside s seg h hst hp hu
+
+/-- in particular the connection state and what the application can read are unchanged -/
+theorem c17_unacceptable_noop_observable (s : Tcb) (h : Wf s) (hi : HeapIdle s) (seg : Segment)
+    (hp : seg.text.length ≤ MAX_PAYLOAD) (hu : Unacceptable s seg) :
+    ∃ s', s.segmentArrives seg = .ok (s', .Ok) ∧ s'.status = s.status ∧ s'.receive.2 = s.receive.2 ∧
+      s'.rcv.nxt = s.rcv.nxt ∧ s'.incoming.segments = s.incoming.segments := by
+  obtain ⟨s', e, oo⟩ := c17_unacceptable_noop s h hi seg hp hu
+  refine ⟨s', e, oo.state, ?_, by rw [oo.rcv], by rw [oo.incoming]⟩
+  unfold receive
+  rw [oo.state, oo.incoming]
+  split <;> rfl
+
+/-- non-vacuity: in ESTABLISHED with `RCV.NXT = 5001`, a segment at `RCV.NXT + 100000` is
+    unacceptable (and so is one text byte at `RCV.NXT − 3`) -/
+example : ∃ s : Tcb, s.state = .Established ∧ Wf s ∧ HeapIdle s ∧
+    Unacceptable s (forge .A 16 105001 1001 65535 [7, 8, 9]) ∧
+    Unacceptable s (forge .A 16 4998 1001 65535 [7]) := by
+  refine ⟨{ localPort := 1, remotePort := 2, mtu := 1500, initiation := .Open, state := .Established,
+            snd := { una := 1001, nxt := 1001, iss := 1000 }, rcv := { irs := 5000, nxt := 5001 } },
+    rfl, ⟨by decide, rfl, by decide, fun _ h => by simp at h⟩, fun h => by simp at h, ?_, ?_⟩
+  · unfold Unacceptable EntirelyOutside InWindow
+    rw [if_neg (by decide)]
+    intro k hk
+    have : k < 3 := by simpa [forge, Segment.segLen, Ctl.ofNat] using hk
+    have hk' : k = 0 ∨ k = 1 ∨ k = 2 := by omega
+    rcases hk' with rfl | rfl | rfl <;> decide
+  · unfold Unacceptable EntirelyOutside InWindow
+    rw [if_neg (by decide)]
+    intro k hk
+    have : k < 1 := by simpa [forge, Segment.segLen, Ctl.ofNat] using hk
+    have hk' : k = 0 := by omega
+    subst hk'; decide
+
 /-! ## regression witnesses of the repaired defects
 
 Concrete op sequences of the two-endpoint system (`Model/TcpSys.lean`); the same op lines are
@@ -233,5 +286,17 @@ def stateA (r : Except String (Sys × List Res)) : Option State := (tcbA r).map 
 theorem c17_regression_closing :
     stateA (Sys.run {} (handshakeOps ++ [.emit .A, .deliver .B 2, .close .A, .close .B, .emit .B,
       .deliver .A 3, .inject .A (forge .A 4 2147488650 0 0 [])])) = some .Closing := by decide
+
+/-- the send sequence space of side A after the ops -/
+def sndA (r : Except String (Sys × List Res)) : Option (Nat × Nat) :=
+  (tcbA r).map fun t => (t.snd.una.toNat, t.snd.nxt.toNat)
+
+/-- F-C17-6: with nothing outstanding (`SND.UNA = SND.NXT = 1001`) an ACK of `1001 + 2^31` passes
+    both `mod_leq(SEG.ACK, SND.UNA)` and `mod_gt(SEG.ACK, SND.NXT)`: it is taken as a valid
+    acknowledgment of data never sent, `SND.UNA` jumps 2^31 ahead of `SND.NXT`, and the next
+    data segment lies 2^31 beyond `SND.UNA + SND.WND` -/
+theorem c17_window_counterexample_ack_half_space :
+    sndA (Sys.run {} (handshakeOps ++ [.inject .A (forge .A 16 5001 2147484649 100 []),
+      .write .A [1], .emit .A])) = some (2147484649, 1002) := by decide
 
 end Elvis.Tcp
